@@ -1,5 +1,6 @@
 import PiqpProofs.Basic
 import PiqpModel.Control
+import PiqpProofs.Properties.C14
 
 /-!
 # C02 — well-posed problems are solved by every back end
@@ -23,4 +24,41 @@ theorem not_solved_partial (st : Settings K) (cs : Consts K) (ops : LoopOps K σ
     (loopG st cs ops c s info).2 = Status.dualInfeasible ∨ (loopG st cs ops c s info).2 = Status.numerics := by
   fun_induction loopG st cs ops c s info <;> simp_all
 
+end Piqp.C02
+
+/-!
+## Mechanism: on a convex problem no factorisation ever fails (exact arithmetic)
+
+`C14.sparse_factorisation_never_fails` / `C14.dense_factorisation_never_fails`: the reduced KKT matrix of a convex problem at
+an interior iterate is symmetric quasi-definite (resp. positive definite for the dense back end), a class on which the
+pivot-free LDLᵀ of every symmetric permutation (resp. Cholesky) meets no zero (non-positive) pivot. Together with
+`C13.init_coherent`, `updateScalings_coherent`, `updateData_ok` (the matrix stays coherent with the data) and C08's cone
+invariant (the iterate stays interior) this removes the NUMERICS exit and the whole retry logic from the exact-arithmetic
+behaviour on the well-posed class; what remains unproved is convergence within the iteration limit.
+-/
+
+namespace Piqp.C02
+section factor
+open Piqp.C14
+variable {K : Type} [Field K] [LinearOrder K] [IsStrictOrderedRing K]
+variable {n p m : Nat}
+
+theorem convex_sparse_factorisation_succeeds (be : Backend) (st : KKTSettings K) (d : Data K n p m) (k : KKT K n p m)
+    (perm : Vector (Fin (n + p + m)) (n + p + m)) (hperm : IsPerm perm) (hc : C13.Coherent be d k)
+    (hP : ∀ x : Vec K n, 0 ≤ quad d.Psym x) (hρ : 0 < k.rho) (hδ : 0 < k.delta)
+    (hw : ∀ t : Fin m, 0 < k.s[t] * k.zinv[t] + k.delta)
+    (hl : ∀ a : Fin n, d.lb.act a → 0 < k.zinv_lb[a] * k.s_lb[a] + k.delta)
+    (hu : ∀ a : Fin n, d.ub.act a → 0 < k.zinv_ub[a] * k.s_ub[a] + k.delta) :
+    (KKT.regFactor be st d k false (innerLDLT be perm)).factOk = true :=
+  sparse_factorisation_never_fails be st d k perm hperm hc hP hρ hδ hw hl hu
+
+theorem convex_dense_factorisation_succeeds (sqrtF : K → K) (hsq : ExactSqrt sqrtF) (st : KKTSettings K) (d : Data K n p m) (k : KKT K n p m)
+    (hc : C13.Coherent .dense d k)
+    (hP : ∀ x : Vec K n, 0 ≤ quad d.Psym x) (hρ : 0 < k.rho) (hδ : 0 < k.delta)
+    (hw : ∀ t : Fin m, 0 < k.s[t] * k.zinv[t] + k.delta)
+    (hl : ∀ a : Fin n, d.lb.act a → 0 < k.zinv_lb[a] * k.s_lb[a] + k.delta)
+    (hu : ∀ a : Fin n, d.ub.act a → 0 < k.zinv_ub[a] * k.s_ub[a] + k.delta) :
+    (KKT.regFactor .dense st d k false (innerLLT sqrtF)).factOk = true :=
+  dense_factorisation_never_fails sqrtF hsq st d k hc hP hρ hδ hw hl hu
+end factor
 end Piqp.C02
